@@ -97,6 +97,11 @@ func (a *Allocator) Allocate(hint net.IPNet) (ret net.IPNet, err error) {
 
 // Free returns the given prefix to the available pool if it was taken.
 func (a *Allocator) Free(prefix net.IPNet) error {
+	if !a.containing.Contains(prefix.IP) {
+		// Offset is an absolute distance: without this check a prefix below the
+		// pool would alias the block at the same distance above its base
+		return fmt.Errorf("Could not find prefix in pool: %s is outside of %s", prefix.String(), a.containing.String())
+	}
 	idx, err := a.toIndex(prefix.IP.Mask(prefix.Mask))
 	if err != nil {
 		return fmt.Errorf("Could not find prefix in pool: %w", err)
